@@ -295,6 +295,27 @@ def run_c06(ctx: common.Ctx):
         ctx.count('reparses', ok_edits)
 
 
+class DocumentUnusable(Exception):
+    pass
+
+
+def guarded_edit(ctx, r, target, sig: str, w: dict, hist: list):
+    """edits.random_edit, but an exception that escapes from the IMPLEMENTATION while the edit engine merely walks,
+    copies or reads the document (innermost frame outside /verif) is a concrete finding: an earlier accepted edit
+    left the document in a state in which it cannot be read / copied any more."""
+    import traceback
+    try:
+        return edits.random_edit(r, target)
+    except Exception as x:
+        tb = traceback.extract_tb(x.__traceback__)
+        if tb and not tb[-1].filename.startswith('/verif/'):
+            where = next((f'{fr.name} ({fr.filename.split("/")[-1]}:{fr.lineno})' for fr in reversed(tb) if not fr.filename.startswith('/verif/')), '?')
+            ctx.monitor_failure(sig, f'after the edits {hist[-4:]} the document can no longer be walked / copied / read: '
+                                     f'{type(x).__name__}: {x} in {where}', dict(w, history=list(hist)))
+            raise DocumentUnusable() from x
+        raise
+
+
 # ---- C11 -------------------------------------------------------------------------------------------
 def span_text(m) -> str:
     return ''.join(t.raw_text for t in m.token_store.iter(m.first_token, m.last_token)) if m.token_store else ''
@@ -307,10 +328,13 @@ def run_c11(ctx: common.Ctx):
         seed = ctx.rng.randrange(1 << 30)
         r = random.Random(seed)
         pre = []
-        for _ in range(ctx.rng.choice([0, 0, 2, 4])):
-            e = edits.random_edit(r, f)
-            if e is not None:
-                pre.append(repr(e))
+        try:
+            for _ in range(ctx.rng.choice([0, 0, 2, 4])):
+                e = guarded_edit(ctx, r, f, 'C11:document-unusable-after-edit', {'text': text, 'auto_claim': ac, 'lf': lf, 'edit_seed': seed}, pre)
+                if e is not None:
+                    pre.append(repr(e))
+        except DocumentUnusable:
+            continue
         for pick in range(5):
             nodes = [(p, m) for p, m in treewalk.walk(f) if isinstance(m, base.RawTreeModel)]
             p, m = nodes[0] if pick == 0 else r.choice(nodes)
@@ -348,22 +372,82 @@ def run_c11(ctx: common.Ctx):
             # independence: edit the copy, the original must not move; then edit the original
             before_text, before_dump = treewalk.text_of(f), treewalk.dump(f)
             ch = []
-            for _ in range(3):
-                e = edits.random_edit(r, c)
-                if e is not None:
-                    ch.append(repr(e))
+            try:
+                for _ in range(3):
+                    e = guarded_edit(ctx, r, c, 'C11:copy-unusable-after-edit', w, ch)
+                    if e is not None:
+                        ch.append(repr(e))
+            except DocumentUnusable:
+                break
             if treewalk.text_of(f) != before_text or treewalk.dump(f) != before_dump:
                 ctx.monitor_failure('C11:copy-edit-changed-original', f'editing deepcopy({p}) [{ch}] changed the original document', dict(w, copy_edits=ch))
             ctext, cdump = treewalk.text_of(c), treewalk.dump(c)
             oh = []
-            for _ in range(3):
-                e = edits.random_edit(r, f)
-                if e is not None:
-                    oh.append(repr(e))
+            try:
+                for _ in range(3):
+                    e = guarded_edit(ctx, r, f, 'C11:document-unusable-after-edit', w, pre + oh)
+                    if e is not None:
+                        oh.append(repr(e))
+            except DocumentUnusable:
+                break
             if treewalk.text_of(c) != ctext or treewalk.dump(c) != cdump:
                 ctx.monitor_failure('C11:original-edit-changed-copy', f'editing the original [{oh}] changed deepcopy({p})', dict(w, orig_edits=oh))
             ctx.case({'path': p, 'class': type(m).__name__, 'pre_edits': len(pre), 'copy_edits': ch[:3]},
                      nontrivial=bool(ch or oh))
+        # deep copies of node LISTS (model.raw_xs wrappers): editing the copied list must not reach the original's
+        # value views (tags, links, postings, meta, ...) nor its text, and vice versa
+        from autobean_refactor.models.internal import properties as props_
+        f3 = gen_docs.parse_ok(text, ac)
+        cands = []
+        for p_, m_ in ([] if f3 is None else treewalk.walk(f3)):
+            if not isinstance(m_, base.RawTreeModel) or isinstance(m_, edits.internal.Repeated):
+                continue
+            for name in edits.class_props(type(m_)):
+                if name.startswith('raw_'):
+                    try:
+                        w_ = getattr(m_, name)
+                    except Exception:
+                        continue
+                    if isinstance(w_, props_.RepeatedNodeWrapper) and len(w_):
+                        cands.append((p_, m_, name, w_))
+        r.shuffle(cands)
+        for p_, m_, name, w_ in cands[:2]:
+            def views_now():
+                out = {}
+                for vn in edits.class_props(type(m_)):
+                    if vn.startswith('_'):
+                        continue
+                    try:
+                        v = getattr(m_, vn)
+                        if hasattr(v, '__len__') and hasattr(v, '__iter__') and not isinstance(v, (str, bytes)):
+                            out[vn] = [(id(x) if isinstance(x, base.RawModel) else repr(x)) for x in v]
+                    except Exception as x:
+                        out[vn] = f'raised {type(x).__name__}'
+                return out
+            before_views, before_text = views_now(), treewalk.text_of(f3)
+            wl = {'text': text, 'auto_claim': ac, 'path': p_, 'list': name}
+            try:
+                wc = copy.deepcopy(w_)
+            except Exception as x:
+                ctx.monitor_failure('C11:deepcopy-raised', f'deepcopy({p_}.{name}) raised {type(x).__name__}: {x}', wl)
+                continue
+            ctx.count('list_copies')
+            ops_done = []
+            try:
+                item = copy.deepcopy(wc[0])
+                wc.pop(0)
+                ops_done.append('pop(0)')
+                wc.append(item)
+                ops_done.append('append(copy of the popped item)')
+                if len(wc) > 1:
+                    del wc[0]
+                    ops_done.append('del [0]')
+            except Exception:
+                pass
+            if views_now() != before_views or treewalk.text_of(f3) != before_text:
+                ctx.monitor_failure('C11:copy-edit-changed-original', f'editing deepcopy({p_}.{name}) [{ops_done}] changed the views / text of '
+                                    f'the original model', dict(wl, copy_edits=ops_done))
+                continue
         # ONE deepcopy call that reaches several models of the document at once (a list / tuple / dict holding an
         # ancestor and its descendant, the same model twice, siblings): every element of the result must again be
         # an equal, exact, complete and disjoint copy of its original
@@ -410,8 +494,13 @@ def run_c11(ctx: common.Ctx):
 def run_c20(ctx: common.Ctx):
     from autobean_refactor.models import base
     for text, ac, lf, f in documents(ctx, ctx.scale(200, 2000)):
+        # the twin is parsed under ANOTHER token-store load factor: how a store happens to be cut into blocks is no
+        # part of type, text or structure, so it must not take part in equality
+        lf_g = ctx.rng.choice([x for x in (2, 3, 5, 7, 1000) if x != lf])
+        sd.set_load_factor(lf_g)
         g = gen_docs.parse_ok(text, ac)
-        w = {'text': text, 'auto_claim': ac}
+        sd.set_load_factor(lf)
+        w = {'text': text, 'auto_claim': ac, 'lf': lf, 'lf_twin': lf_g}
         nf = [(p, m) for p, m in treewalk.walk(f)]
         ng = [(p, m) for p, m in treewalk.walk(g)]
         if len(nf) != len(ng):
@@ -464,6 +553,32 @@ def run_c20(ctx: common.Ctx):
                         ctx.monitor_failure('C20:same-span-different-model', f'{p1} ({type(a1).__name__}) == {p2} ({type(b1).__name__}) is {a1 == b1}, '
                                             f'same type and structure is {same}', dict(w, a=p1, b=p2))
                     ctx.count('pairs_compared')
+        # "changing the text of any one token makes the result unequal" - also for a spacing token that lies directly
+        # between the children of an INLINE model (Amount, CostSpec, price, tolerance, number expression ...), compared
+        # at the level of that model itself, not only through an enclosing entry
+        inl = []
+        for (p, a), (_, b) in zip(nf, ng):
+            if isinstance(a, base.RawTreeModel) and getattr(type(a), 'INLINE', False) and type(a) is type(b):
+                try:
+                    inner = [t for t in a.token_store.iter(a.first_token, a.last_token)][1:-1]
+                except Exception:
+                    continue
+                ws = [t for t in inner if type(t).__name__ == 'Whitespace' and t.raw_text]
+                if ws and a == b:
+                    inl.append((p, a, b, ws))
+        r.shuffle(inl)
+        for p, a, b, ws in inl[:3]:
+            t = r.choice(ws)
+            old_text = t.raw_text
+            t.raw_text = old_text + ' ' if r.random() < 0.5 else ('\t' if old_text != '\t' else '  ')
+            try:
+                if a == b or b == a:
+                    ctx.monitor_failure('C20:edit-still-equal', f'{p} ({type(a).__name__}): after the blank between its children was changed from '
+                                        f'{old_text!r} to {t.raw_text!r} it still equals its untouched twin (texts {treewalk.text_of(a)!r} / '
+                                        f'{treewalk.text_of(b)!r})', dict(w, path=p))
+            finally:
+                t.raw_text = old_text
+            ctx.count('pairs_compared')
         # hash stays consistent with == for tokens across edits: hash, edit, compare with an equal fresh token
         vtoks = [(p, t) for p, t in nf if isinstance(t, base.RawTokenModel) and edits.sample_for(type(t), r) is not None
                  and hasattr(t, 'value') and not (hasattr(t, 'claimed') and not t.claimed)]
@@ -593,7 +708,7 @@ def _arg(r, cls_name: str, pname: str, full: bool):
     from decimal import Decimal as D
     from autobean_refactor import models
     E = edits
-    strings = ['plain', '', 'q"uote', 'back\\slash', 'two\nlines', 'ünï']
+    strings = ['plain', '', 'q"uote', 'back\\slash', 'two\nlines', 'ünï', 'bs\\"q', 'C:\\dir\\"f"', '\\"']
     if pname == 'date':
         return r.choice([E.s_date(r), datetime.date(999, 1, 2)])
     if pname in ('account', 'source_account'):
